@@ -69,6 +69,8 @@ fn outcome<N>(r: Rt<N>, prop: &str, labels: impl FnOnce(&N) -> (bool, Vec<String
 
 #[derive(Clone, Debug)]
 pub enum AspNode {
+    /// a recorded text (replays): (kind, text)
+    Raw(String, String),
     Term(asp::Term),
     Atom(asp::Atom),
     Element(asp::AtomicFormula),
@@ -210,9 +212,45 @@ impl Check for C14 {
     fn rule(&self) -> String {
         "random mini-gringo term/atom/body element/rule/program rendered by the checker's own fully-parenthesising printer with random whitespace, comments and keyword spellings; oracle: parse -> print -> parse gives the identical tree and print is stable; non-trivial = the parsed tree has an operator (or negative numeral) directly below an operator, i.e. a position where the printer's precedence/associativity table decides; distinct by anthem's output text; labels = (parent operator > side:child) pairs".into()
     }
+    fn exhaustive(&self, _tier: Tier) -> Vec<AspCase> {
+        // every term of depth <= 2 over four leaves, all six binary operators and unary minus
+        let leaves = vec![ga::var("X"), ga::num(1), ga::num(-1), ga::sym("a")];
+        let ops = [
+            asp::BinaryOperator::Add,
+            asp::BinaryOperator::Subtract,
+            asp::BinaryOperator::Multiply,
+            asp::BinaryOperator::Divide,
+            asp::BinaryOperator::Modulo,
+            asp::BinaryOperator::Interval,
+        ];
+        let next = |prev: &Vec<asp::Term>| -> Vec<asp::Term> {
+            let mut out = prev.clone();
+            for t in prev {
+                out.push(ga::neg(t.clone()));
+            }
+            for op in &ops {
+                for a in prev {
+                    for b in prev {
+                        out.push(ga::binop(*op, a.clone(), b.clone()));
+                    }
+                }
+            }
+            out
+        };
+        let l1 = next(&leaves);
+        let l2 = next(&l1);
+        l2.into_iter().map(|t| AspCase { node: AspNode::Term(t), style: vec![] }).collect()
+    }
     fn run(&self, case: &AspCase) -> Outcome {
         let st = Style::from_bytes(case.style.clone());
         match &case.node {
+            AspNode::Raw(kind, text) => match kind.as_str() {
+                "term" => outcome(roundtrip::<asp::Term>("term", text), "C14", |_| (true, vec![])),
+                "atom" => outcome(roundtrip::<asp::Atom>("atom", text), "C14", |_| (true, vec![])),
+                "element" => outcome(roundtrip::<asp::AtomicFormula>("body element", text), "C14", |_| (true, vec![])),
+                "rule" => outcome(roundtrip::<asp::Rule>("rule", text), "C14", |_| (true, vec![])),
+                _ => outcome(roundtrip::<asp::Program>("program", text), "C14", |_| (true, vec![])),
+            },
             AspNode::Term(t) => outcome(roundtrip::<asp::Term>("term", &sp::asp_term(t, &st)), "C14", |t| {
                 let mut ls = vec![];
                 term_pairs(t, &mut ls);
@@ -251,6 +289,7 @@ impl Check for C14 {
     fn describe(&self, case: &AspCase) -> Value {
         let st = Style::from_bytes(case.style.clone());
         let (kind, text) = match &case.node {
+            AspNode::Raw(k, t) => (match k.as_str() { "term" => "term", "atom" => "atom", "element" => "element", "rule" => "rule", _ => "program" }, t.clone()),
             AspNode::Term(t) => ("term", sp::asp_term(t, &st)),
             AspNode::Atom(a) => ("atom", sp::asp_atom(a, &st)),
             AspNode::Element(e) => ("element", sp::asp_body_element(e, &st)),
@@ -260,16 +299,9 @@ impl Check for C14 {
         json!({"kind": kind, "text": text})
     }
     fn from_replay(&self, j: &Value) -> Option<AspCase> {
-        // replay re-parses the recorded text with anthem and prints it with the plain style
+        // replays carry the recorded text itself (acceptance may change over time)
         let text = j["text"].as_str()?;
-        let node = match j["kind"].as_str()? {
-            "term" => AspNode::Term(text.parse().ok()?),
-            "atom" => AspNode::Atom(text.parse().ok()?),
-            "element" => AspNode::Element(text.parse().ok()?),
-            "rule" => AspNode::Rule(text.parse().ok()?),
-            "program" => AspNode::Program(text.parse().ok()?),
-            _ => return None,
-        };
+        let node = AspNode::Raw(j["kind"].as_str()?.to_string(), text.to_string());
         Some(AspCase { node, style: vec![] })
     }
 }
@@ -279,6 +311,8 @@ impl Check for C14 {
 
 #[derive(Clone, Debug)]
 pub enum FolNode {
+    /// a recorded text (replays): (kind, text)
+    Raw(String, String),
     IntTerm(fol::IntegerTerm),
     GenTerm(fol::GeneralTerm),
     Formula(fol::Formula),
@@ -493,6 +527,14 @@ impl Check for C15 {
             (nt, ls)
         }
         match &case.node {
+            FolNode::Raw(kind, text) => match kind.as_str() {
+                "integer-term" => outcome(roundtrip::<fol::IntegerTerm>("integer term", text), "C15", |_| (true, vec![])),
+                "general-term" => outcome(roundtrip::<fol::GeneralTerm>("general term", text), "C15", |_| (true, vec![])),
+                "formula" => outcome(roundtrip::<fol::Formula>("formula", text), "C15", |_| (true, vec![])),
+                "specification" => outcome(roundtrip::<fol::Specification>("specification", text), "C15", |_| (true, vec![])),
+                "user-guide" => outcome(roundtrip::<fol::UserGuide>("user guide", text), "C15", |_| (true, vec![])),
+                _ => outcome(roundtrip::<fol::Theory>("theory", text), "C15", |_| (true, vec![])),
+            },
             FolNode::IntTerm(t) => outcome(
                 roundtrip::<fol::IntegerTerm>("integer term", &sp::int_term(t, &st)),
                 "C15",
@@ -564,6 +606,17 @@ impl Check for C15 {
     fn describe(&self, case: &FolCase) -> Value {
         let st = Style::from_bytes(case.style.clone());
         let (kind, text) = match &case.node {
+            FolNode::Raw(k, t) => (
+                match k.as_str() {
+                    "integer-term" => "integer-term",
+                    "general-term" => "general-term",
+                    "formula" => "formula",
+                    "specification" => "specification",
+                    "user-guide" => "user-guide",
+                    _ => "theory",
+                },
+                t.clone(),
+            ),
             FolNode::IntTerm(t) => ("integer-term", sp::int_term(t, &st)),
             FolNode::GenTerm(t) => ("general-term", sp::gen_term(t, &st)),
             FolNode::Formula(f) => ("formula", sp::formula(f, &st)),
@@ -574,16 +627,7 @@ impl Check for C15 {
         json!({"kind": kind, "text": text})
     }
     fn from_replay(&self, j: &Value) -> Option<FolCase> {
-        let text = j["text"].as_str()?;
-        let node = match j["kind"].as_str()? {
-            "integer-term" => FolNode::IntTerm(text.parse().ok()?),
-            "general-term" => FolNode::GenTerm(text.parse().ok()?),
-            "formula" => FolNode::Formula(text.parse().ok()?),
-            "theory" => FolNode::Theory(text.parse().ok()?),
-            "specification" => FolNode::Spec(text.parse().ok()?),
-            "user-guide" => FolNode::Guide(text.parse().ok()?),
-            _ => return None,
-        };
+        let node = FolNode::Raw(j["kind"].as_str()?.to_string(), j["text"].as_str()?.to_string());
         Some(FolCase { node, style: vec![] })
     }
 }
